@@ -65,6 +65,9 @@ def cases(seed, tier):
             if rng.random() < 0.5:
                 # a second target in the same file, with or without a port of its own, before or after
                 c['other'] = {'host': 'other.example', 'ip': '203.0.113.9', 'port': rng.choice([None, None, 2022, 22, 8022]), 'first': rng.random() < 0.5}
+            elif gen.case_rng(seed, ID, i, 'same-host').random() < 0.4:
+                # the same host a second time, on another port of its own
+                c['other'] = {'same_host': True, 'port': rng.choice([2022, 8022, 10022]), 'first': rng.random() < 0.5}
         yield c
 
 
@@ -122,6 +125,14 @@ def run_case(case, ctx):
         argv += ['-p', str(case['popt'])]
     plan = {'seed': case['pseed'], 'world': {'hosts': hosts, 'servers': servers}, 'net': {'rtt_us': 300}, 'knobs': {'max_conns': 400}}
     other = case.get('other') if valid else None
+    same = None
+    if other and other.get('same_host'):
+        same, other = other, None
+        if same['port'] == lport or case['kind'] == 'v6f':
+            same = None
+        else:
+            for srv in list(servers):
+                servers.append({'ip': srv['ip'], 'port': same['port'], 'profile': prof, 'name': srv['name'] + '-second-port'})
     if other:
         oport = other['port'] if other['port'] is not None else (case['popt'] if case['popt'] is not None else 22)
         hosts[other['host']] = {'answers': [[4, other['ip']]]}
@@ -129,6 +140,13 @@ def run_case(case, ctx):
     if case['source'] == 'file':
         lines = list(case.get('file_extra', []))
         mine = [case['spelling']]
+        if same:
+            sp = case['spelling']
+            base = sp[:sp.rindex(':')] if case['port'] is not None and ':' in sp and not sp.endswith(']') else sp
+            if ':' in base and not base.startswith('['):
+                base = '[%s]' % base
+            sspell = '%s:%d' % (base, same['port'])
+            mine = [sspell, sp] if same['first'] else [sp, sspell]
         if other:
             ospell = other['host'] if other['port'] is None else '%s:%d' % (other['host'], other['port'])
             mine = [ospell, case['spelling']] if other['first'] else [case['spelling'], ospell]
@@ -157,6 +175,11 @@ def run_case(case, ctx):
         keys.append(h('invalid', src, case['popt'] is not None, case['port']))
         return {'violations': out, 'keys': keys}
     # ---- resolver queries: only for the named host, with the family the option asks for
+    if same:
+        ports = {cport for (_f, ip, cport, _o) in rec['connects'] if ip in addrs}
+        if (lport in ports) != (same['port'] in ports):
+            out.append(viol('C18 the same host listed on two ports: one of the two endpoints was never contacted', 'lines %r: ports contacted %r\n%s' % (mine, sorted(ports), ctx_txt)))
+        rec = dict(rec, connects=[c for c in rec['connects'] if not (c[1] in addrs and c[2] == same['port'])])
     if other:
         for (fam, ip, cport, outcome) in rec['connects']:
             if ip == other['ip'] and cport != oport:
@@ -208,6 +231,8 @@ def run_case(case, ctx):
                 if isinstance(doc, list):
                     cand = [x for x in doc if isinstance(x, dict) and not (other and str(x.get('target', '')).startswith(other['host']))]
                     d = cand[0] if cand else None
+                    if same:
+                        d = next((x for x in cand if x.get('target') == lab_hostport), d)
                 else:
                     d = doc
                 if isinstance(d, dict) and 'target' in d and d['target'] != lab_hostport:
@@ -218,11 +243,15 @@ def run_case(case, ctx):
                 hosts_shown = [x for x in hosts_shown if not x.startswith(other['host'])]
             m = re.match(r'(\S+)', hosts_shown[0]) if hosts_shown else None
             want = host if port == 22 else ('[%s]:%d' % (host, port) if ':' in host else '%s:%d' % (host, port))
+            if same and want in hosts_shown:
+                m = None
             if m and m.group(1) != want:
                 out.append(viol('C18 policy report label differs from the named target', 'label %r want %r\n%s' % (m.group(1), want, ctx_txt)))
         elif src == 'file' and not other:
             m = re.search(r'(?m)^\(gen\) target: (\S+)', report.strip_ansi(rec['stdout']))
             want = host if port == 22 else ('[%s]:%d' % (host, port) if ':' in host else '%s:%d' % (host, port))
+            if same and want in re.findall(r'(?m)^\(gen\) target: (\S+)', report.strip_ansi(rec['stdout'])):
+                m = None
             if m and m.group(1) != want:
                 out.append(viol('C18 multi-target label differs from the named target', 'label %r want %r\n%s' % (m.group(1), want, ctx_txt)))
     if rec['resolver'] or rec['connects']:
